@@ -46,7 +46,9 @@ class Contract:
 
     def raises(self, cx, exc):
         """Called on an exceptional path; default: exceptions are not allowed (totality)."""
-        cx.prove(f"no-exception:{exc.exc}", z3.BoolVal(False), kind="raises")
+        ob = cx.prove(f"no-exception:{exc.exc}", z3.BoolVal(False), kind="raises")
+        if ob is not None and ob.status != "unsat":
+            ob.detail = f"raised {exc.exc}({exc.msg[:120]}); " + ob.detail
 
     @classmethod
     def name(cls):
@@ -176,7 +178,9 @@ def verify(contract_cls, repo=None, timeout_ms=None):
             cx.old = {"heap": dict(ctx.heap)}
             cx.initial_obsolete = self_obj.attrs.get("_obsolete") if isinstance(self_obj, Instance) and "attrs" in ctx.store.get(self_obj.id, {}) else None
             try:
-                if self_obj is not None:
+                if inputs.get("setter"):
+                    result = it.setattr(self_obj, c.qualname.split(".")[1], args[0])
+                elif self_obj is not None:
                     if isinstance(self_obj, ClassObj):
                         result = it.call(it.getattr(self_obj, c.qualname.split(".")[1]), args, kwargs)
                     else:
